@@ -87,13 +87,13 @@ def glpk_dump(model) -> dict:
     }
 
 
-def optlang_dump(model) -> dict:
-    """The optlang view of the same problem (model.variables / constraints / objective)."""
+def optlang_dump(model, strict=False) -> dict:
+    """The optlang view of the same problem (model.variables / constraints / objective).  strict: the largest float is a bound, not "no bound"."""
     s = model.solver
     s.update()
     def inf(x, sign):
         # optlang's mirror of a problem rebuilt from GLPK's text form (copy / pickle) holds +-DBL_MAX where GLPK itself says "no bound"
-        return sign * math.inf if x is None or abs(x) >= 1e308 else x
+        return sign * math.inf if x is None or (abs(x) >= 1e308 and not strict) else x
     vars_ = {v.name: [num(inf(v.lb, -1)), num(inf(v.ub, 1)), v.type] for v in s.variables}
     cons = {}
     for c in s.constraints:
